@@ -11,7 +11,10 @@ inductive Op where
   | openT (r : Conn)            -- Open() ; drain.  `r`: what a connect attempt meets
   | req (id : Nat) (dl : DL)    -- AsyncProcessRequest with a fresh sink stack ; drain
   | io (o : IOOut)              -- the blocking I/O call of the transaction returns with `o`
-  | timeoutHere (r : Conn)      -- the transaction's deadline passes while it is blocked
+  | timeoutHere (r : Conn)      -- the transaction's deadline passes while it is blocked in an I/O
+                                -- call; the re-connect concludes at once with `r`
+  | timeoutBlock                -- the same, and the re-connect takes time: the greenlet blocks in it
+  | reconn (r : Conn)           -- the re-connect in progress concludes
   | close                       -- Close()
   | look
   deriving Repr, DecidableEq
@@ -22,7 +25,8 @@ structure Obs where
   faults : Nat                  -- on_faulted notifications during this operation
   dels : List (Nat × Resp)      -- responses handed to sink stacks during this operation
   sent : List Nat               -- request frames that reached the peer during this operation
-  conns : Nat                   -- connect attempts during this operation
+  conns : Nat                   -- connect attempts that concluded during this operation
+  sock : Bool                   -- the socket handle is connected (`ScalesSocket.isOpen()`)
   deriving Repr, DecidableEq
 
 def stepOut (s : St) : Op → St × Out
@@ -30,11 +34,13 @@ def stepOut (s : St) : Op → St × Out
   | .req id dl => s.request id dl
   | .io o => s.io o
   | .timeoutHere r => s.timeoutHere r
+  | .timeoutBlock => s.timeoutBlock
+  | .reconn r => s.reconnDone r
   | .close => (s.close, {})
   | .look => (s, {})
 
 def obsOf (s : St) (o : Out) : Obs :=
-  ⟨s.state, s.processing.isSome, o.eff.faults, o.eff.dels, o.sent, o.eff.conns⟩
+  ⟨s.state, s.processing.isSome, o.eff.faults, o.eff.dels, o.sent, o.eff.conns, s.sockOpen⟩
 
 def step (_ : Unit) (s : St) (op : Op) : St × Obs :=
   let (s', o) := stepOut s op
@@ -45,6 +51,7 @@ def step (_ : Unit) (s : St) (op : Op) : St × Obs :=
 def decDL : V → Option DL
   | .a "none" => some .none
   | .a "future" => some .future
+  | .l [.a "past", .a "block"] => some .pastBlock
   | .l [.a "past", r] => do pure (.past (← decConn r))
   | _ => none
 
@@ -52,18 +59,20 @@ def decOp : List V → Option Op
   | [.a "open", r] => do pure (.openT (← decConn r))
   | [.a "req", id, dl] => do pure (.req (← id.nat?) (← decDL dl))
   | [.a "io", o] => do pure (.io (← decIO o))
+  | [.a "timeout", .a "block"] => some .timeoutBlock
   | [.a "timeout", r] => do pure (.timeoutHere (← decConn r))
+  | [.a "reconn", r] => do pure (.reconn (← decConn r))
   | [.a "close"] => some .close
   | [.a "look"] => some .look
   | _ => none
 
 def encObs (o : Obs) : V :=
   .l [encCS o.state, V.ofBool o.busy, V.ofNat o.faults, .l (o.dels.map encDel), V.ofNats o.sent,
-      V.ofNat o.conns]
+      V.ofNat o.conns, V.ofBool o.sock]
 
 def decObs : V → Option Obs
-  | .l [st, b, f, .l ds, sent, c] => do
-      pure ⟨← decCS st, ← b.bool?, ← f.nat?, ← ds.mapM decDel, ← sent.natList?, ← c.nat?⟩
+  | .l [st, b, f, .l ds, sent, c, k] => do
+      pure ⟨← decCS st, ← b.bool?, ← f.nat?, ← ds.mapM decDel, ← sent.natList?, ← c.nat?, ← k.bool?⟩
   | _ => none
 
 /-! ### specification over a history
@@ -79,11 +88,19 @@ def decObs : V → Option Obs
     not reporting `closed` before;
   * silence     — when the deadline of the transaction in flight passes while it is blocked in an
                   I/O call (write, header read or body read: the peer is silent), the request is
-                  failed in that very operation; if the re-connect then succeeds the transport is
-                  `open` with nothing owed, so the next clause applies to the next request;
+                  failed: in that very operation if the re-connect concludes in it
+                  (`timeoutHere r`); if the re-connect takes time (`timeoutBlock`) at the latest in
+                  the operation in which it concludes (`reconn r`) — nothing is demanded for a
+                  request whose re-connect is cut short by a deliberate `Close()`.  If the
+                  re-connect succeeds the transport is `open` with nothing owed, so the next
+                  clauses apply;
   * carries     — a request issued while the transport reports `open` and no request is owed a
                   response is not rejected, and when its write call succeeds its frame has
-                  reached the peer.
+                  reached the peer.  The clause is judged wherever such a request is issued — also
+                  between the two halves of a re-connect that takes time;
+  * able        — at *every* observation (also those taken while a re-connect is in progress): a
+                  transport that reports `open` while no request is owed a response has a connected
+                  socket — without one it cannot carry the next request, whenever that comes.
 
   Nothing is demanded for requests in flight at a deliberate `Close()`. -/
 
@@ -92,6 +109,9 @@ structure Acc where
   abandoned : List Nat := []
   prev : CS := .idle              -- state reported after the previous operation
   wr : Option Nat := none         -- request accepted on an open idle transport; its write is next
+  rc : Option (List Nat) := none  -- a re-connect after a time-out is in progress (it was started and has
+                                  -- neither concluded nor been cut short by `Close()`); the requests
+                                  -- whose time-out handler is waiting for it
   idx : Nat := 0
   deriving Repr
 
@@ -99,14 +119,17 @@ def isReq : Op → Option Nat
   | .req id _ => some id
   | _ => none
 
-/-- did this operation meet a connection failure? (`owed` = requests in flight before it) -/
-def isFailure (owed : List Nat) (op : Op) (o : Obs) : Bool :=
+/-- did this operation meet a connection failure? (`a.owed` = requests in flight before it; a
+    re-connect that concludes refused is one if it is the re-connect this transport is waiting
+    for — not a connect left over from before a `Close()`) -/
+def isFailure (a : Acc) (op : Op) (o : Obs) : Bool :=
   match op with
   | .openT .refuse => decide (1 ≤ o.conns)
   | .req _ (.past .refuse) => decide (1 ≤ o.conns)
   | .timeoutHere .refuse => decide (1 ≤ o.conns)
-  | .io .raise => !owed.isEmpty
-  | .io .eof => !owed.isEmpty
+  | .reconn .refuse => a.rc.isSome && decide (1 ≤ o.conns)
+  | .io .raise => !a.owed.isEmpty
+  | .io .eof => !a.owed.isEmpty
   | _ => false
 
 /-- requests owed a response once `op` has been issued -/
@@ -117,7 +140,7 @@ def owedWith (a : Acc) (op : Op) : List Nat :=
 
 /-- the clauses on a connection failure -/
 def vFail (a : Acc) (op : Op) (o : Obs) : Verdict :=
-  if isFailure a.owed op o then
+  if isFailure a op o then
     match firstNotFailed (owedWith a op) o.dels with
     | some id => .fail "inflight-not-failed" [V.ofNat a.idx, V.ofNat id]
     | none =>
@@ -136,6 +159,16 @@ def vSilence (a : Acc) (op : Op) (o : Obs) : Verdict :=
   | .timeoutHere _ =>
     match firstNotFailed a.owed o.dels with
     | some id => .fail "deadline-silence-not-failed" [V.ofNat a.idx, V.ofNat id]
+    | none => .ok
+  | .reconn _ =>
+    -- the re-connect that the time-out handler was blocked in has concluded: a request that
+    -- was waiting for it and is still owed its response must be failed now (one that was
+    -- answered earlier is not owed)
+    match a.rc with
+    | some l =>
+      match firstNotFailed (l.filter (fun id => a.owed.contains id)) o.dels with
+      | some id => .fail "deadline-silence-not-failed" [V.ofNat a.idx, V.ofNat id]
+      | none => .ok
     | none => .ok
   | _ => .ok
 
@@ -164,19 +197,38 @@ def nextWr (a : Acc) (op : Op) : Option Nat :=
   | .look => a.wr
   | _ => none
 
+/-- is a re-connect in progress after this operation, and who waits for it (`owed2` = requests
+    still owed a response after the operation) -/
+def nextRc (a : Acc) (op : Op) (owed2 : List Nat) : Option (List Nat) :=
+  match op with
+  | .timeoutBlock => some owed2
+  | .req id .pastBlock => if owed2.contains id && a.rc.isNone then some [id] else a.rc
+  | .reconn _ => none
+  | .close => none
+  | _ => a.rc
+
 /-- the accumulator after an operation whose responses settled to `(owed2, ab2)` -/
 def nextAcc (a : Acc) (op : Op) (o : Obs) (owed2 ab2 : List Nat) : Acc :=
   { owed := if op = .close then [] else owed2
     abandoned := if op = .close then ab2 ++ owed2 else ab2
     prev := o.state
     wr := nextWr a op
+    rc := nextRc a op owed2
     idx := a.idx + 1 }
+
+/-- the clause "a transport that reports `open` and idle is able to carry", judged on every
+    observation: `a'` is the accumulator *after* the operation — the state just reported and the
+    requests still owed a response, exactly what `idleOpen` will look at when the next request
+    comes.  An open idle transport without a connected socket cannot carry that request. -/
+def vAble (idx : Nat) (a' : Acc) (o : Obs) : Verdict :=
+  if idleOpen a' && !o.sock then .fail "open-idle-not-connected" [V.ofNat idx] else .ok
 
 def specStep (a : Acc) (op : Op) (o : Obs) : Verdict × Acc :=
   match settle (owedWith a op) a.abandoned o.dels with
   | .error id => (.fail "response-not-owed" [V.ofNat a.idx, V.ofNat id], a)
   | .ok (owed2, ab2) =>
-    ((vFail a op o).and (fun _ => (vSilence a op o).and (fun _ => vCarry a op o)),
+    ((vFail a op o).and (fun _ => (vSilence a op o).and (fun _ =>
+        (vCarry a op o).and (fun _ => vAble a.idx (nextAcc a op o owed2 ab2) o))),
      nextAcc a op o owed2 ab2)
 
 def specGo (a : Acc) : List (Op × Obs) → Verdict
@@ -189,19 +241,28 @@ def spec (_ : Unit) (h : List (Op × Obs)) : Verdict := specGo {} h
 
 /-! ### hypotheses on operation lists
 
-  `io` and `timeoutHere` stand for something that happens *to a transaction blocked in an I/O
-  call*; they are only meaningful when there is one (and, for the timeout, when it carries a
-  deadline; end-of-stream only exists on reads).  Request ids are fresh. -/
+  `io`, `timeoutHere` and `timeoutBlock` stand for something that happens *to a transaction
+  blocked in an I/O call*; they are only meaningful when there is one (and, for the timeout, when
+  it carries a deadline; end-of-stream only exists on reads); `reconn` concludes a re-connect and
+  needs one in progress.  Request ids are fresh. -/
 
 def enabled (s : St) (seen : List Nat) : Op → Bool
   | .req id _ => !seen.contains id
   | .io o =>
     match s.processing with
-    | some t => !(o = .eof && t.phase = .write)
+    | some t => !(o = .eof && t.phase = .write) && t.phase != .reconn
     | none => false
   | .timeoutHere _ =>
     match s.processing with
-    | some t => t.hasDl
+    | some t => t.hasDl && t.phase != .reconn
+    | none => false
+  | .timeoutBlock =>
+    match s.processing with
+    | some t => t.hasDl && t.phase != .reconn
+    | none => false
+  | .reconn _ =>
+    match s.processing with
+    | some t => t.phase == .reconn
     | none => false
   | _ => true
 
@@ -217,17 +278,27 @@ def opsOk (s : St) (seen : List Nat) : List Op → Bool
 def runOps (s : St) (ops : List Op) : St := ops.foldl (fun s op => (stepOut s op).1) s
 
 /-- the operation meets a connection failure in state `s`: a connect or re-connect that is
-    attempted is refused, or the blocking I/O call of the transaction in flight raises / meets
+    attempted is refused (also one that had been in progress), or the blocking I/O call of the transaction in flight raises / meets
     end-of-stream -/
 def connFailure (s : St) : Op → Bool
   | .openT .refuse => !s.openRes
   | .req _ (.past .refuse) => s.processing.isNone && s.sockOpen
   | .timeoutHere .refuse =>
     match s.processing with
-    | some t => t.hasDl && s.sockOpen
+    | some t => t.hasDl && t.phase != .reconn && s.sockOpen
     | none => false
-  | .io .raise => s.processing.isSome
-  | .io .eof => s.processing.isSome
+  | .reconn .refuse =>
+    match s.processing with
+    | some t => t.phase == .reconn
+    | none => false
+  | .io .raise =>
+    match s.processing with
+    | some t => t.phase != .reconn
+    | none => false
+  | .io .eof =>
+    match s.processing with
+    | some t => t.phase != .reconn
+    | none => false
   | _ => false
 
 /-- number of responses request `id` was handed in a history -/
